@@ -320,7 +320,9 @@ class Ctx:
         cmp_fn = getattr(self.prop, "agree", None)
         res = []
         for c, i, m, o in zip(cases, impl, model, oracle):
-            if not o.startswith("ok"):
+            if i.startswith("skipped-after-"):
+                kind = "skipped"      # not run: the harness had already been killed by several other cases of this batch
+            elif not o.startswith("ok"):
                 kind = "oracle"
             elif (cmp_fn(c, i, m) if cmp_fn else i == m):
                 kind = "ok"
@@ -333,6 +335,8 @@ class Ctx:
         """greedy delta debugging with the harness' candidate generator; keeps the failure kind"""
         cur = r
         steps = 0
+        if r["impl"] in ("hang", "crash"):
+            budget = 16            # every candidate that still hangs costs a full case timeout
         while steps < budget:
             rc, out, err = run([self.bin, "shrink"], inp=cur["case"] + "\n")
             cands = [l for l in out.split("\n") if l and l != cur["case"]]
@@ -421,7 +425,7 @@ def main():
         if ex:
             extra_fail, extra_cov = ex(ctx)
 
-    fails = [r for r in results if r["kind"] != "ok"]
+    fails = [r for r in results if r["kind"] not in ("ok", "skipped")]
     # --- group failures by signature, shrink one representative per signature
     groups = {}
     for r in fails:
